@@ -177,6 +177,11 @@ def check_ext_gcd(rep, prog, fn):
     selections = []
 
     def transfer(n, st):
+        if n.k == 'DeclStmt':
+            for ch in n.c:
+                if ch.k == 'VarDecl':
+                    transfer(ch, st)
+            return
         if n.k in ('BinaryOperator', 'CXXOperatorCallExpr') and n.op == '=':
             ops = n.c if n.k == 'BinaryOperator' else n.c[1:]
             v = ex.var_of(ops[0])
@@ -217,12 +222,28 @@ def check_ext_gcd(rep, prog, fn):
             v = ex.var_of(ops[0])
             if v in (px, py):
                 want = 'sa' if v == px else 'sb'
+                def is_sign_selector(d):
+                    # flag ? -1 : 1  (either order): the branches are the constants +1 and -1
+                    if d.k != 'ConditionalOperator' or d.cond is None:
+                        return False
+                    vals = {d.then.strip_all().cv, d.els.strip_all().cv}
+                    return vals == {1, -1}
+                cands = []
                 for d in ops[1].walk():
-                    if d.k == 'ConditionalOperator' and d.cond is not None:
-                        fv = ex.var_of(d.cond)
-                        if fv in bools:
-                            content = st.get(fv, 'u')
-                            selections.append((n, d, v, want, content, fv))
+                    if d.k == 'ConditionalOperator':
+                        cands.append(d)
+                    if d.k == 'DeclRefExpr' and d.decl_id is not None and prog.vars[d.decl_id].get('kind') == 'local' and d.decl_id not in bools:
+                        # a local holding the sign: const int asign = aneg ? -1 : 1;
+                        dd = ex.unique_def(fn, d.decl_id)
+                        if dd is not None and dd.strip_all().k == 'ConditionalOperator':
+                            cands.append(dd.strip_all())
+                for d in cands:
+                    if not is_sign_selector(d):
+                        continue
+                    fv = ex.var_of(d.cond)
+                    if fv in bools:
+                        content = st.get(fv, 'u')
+                        selections.append((n, d, v, want, content, fv))
 
     tracked = set(bools)
     explore_flags(prog, fn, tracked, transfer, visit)
